@@ -20,8 +20,8 @@ TEXT = {
             "full (extensions restricted to ASCII text without CR: the implementation rejects non-UTF-8 size lines)"),
     "C06": ("Proved on the model in which every trapping operation of request.rs / response.rs / chunked_body.rs is explicit, for both build profiles and every delivery list: C06_request_no_crash, C06_response_no_crash (a run never ends in a panic). generate / decode_body / decode_body_as_text and the trap sites inside the dependencies are covered by observation only (supervised execution, both profiles). Known finding KF1 (rhymessage generate, limit < 2).",
             "partial: proof for the parsers' own arithmetic/indexing, exploration for the rest"),
-    "C07": ("Proved for every parse call from every state: each Vec::reserve the parsers issue asks for no more than the bytes presented to that call (C07_request_reserve_bounded, C07_chunk_reserve_bounded, C07_response_reserve_bounded). Growth of Vec inside std and the dependencies is measured with a counting allocator (largest single request <= 4 KiB + 8 x presented, live bytes <= 8 KiB + 16 x presented), not proved.",
-            "partial: proof for the reservation logic, measurement for the allocator side"),
+    "C07": ("Proved, for every limit configuration, every declared value and every delivery list to a fresh parser: what the parsers retain is bounded by what they consumed — method, header names and values, body, de-chunking buffer, trailer fields never exceed the few bytes of the initial state plus the input bytes consumed, which never exceed the bytes delivered (C07_request_retained_bounded / _vs_delivered, C07_response_retained_bounded, C07_response_payload_bounded / _vs_delivered, C07_chunk_retained_bounded from any state; generic Sys.run_size, Headers.parse_size); and for every parse call from every state each Vec::reserve the parsers issue asks for no more than the bytes presented to that call (C07_request_reserve_bounded, C07_chunk_reserve_bounded, C07_response_reserve_bounded). No declared length occurs in any bound. The growth policy of Vec / String inside std and the dependencies is measured with a counting allocator (largest single request <= 4 KiB + 8 x presented, live bytes <= 8 KiB + 16 x presented), also after errors and with limits changed between calls, not proved.",
+            "partial: proof for retained data and reservation logic, measurement for the allocator side"),
     "C08": ("Proved: C08_request_line_exact (+ _unterminated, _none), C08_header_line_exact (+ _none) for the first line of each field, C08_accept_within_max, C08_more_implies_within_max (a caller following the protocol never buffers more than the maximum). The implementation is also checked against an independent measurement of every element. Known finding KF2 (continuation lines are not measured by the dependency).",
             "full for request line, first header lines and total; known finding KF2"),
     "C09": ("Proved: C09_request_pipeline, C09_response_pipeline (k messages back to back are split at the same offsets into the same messages), C09_response_suffix_irrelevant; with the suffix law P1 of every phase.",
